@@ -216,6 +216,14 @@ def stepLine (s : State) (line : String) : State × String :=
     match c.toNat? with
     | some c => doAct s (.stop c)
     | none => (s, "bad-op")
+  | ["rok", "u", c, t] =>
+    match c.toNat?, t.toNat? with
+    | some c, some t => doAct s (.routerOk (.user c t))
+    | _, _ => (s, "bad-op")
+  | ["rok", "s", c] =>
+    match c.toNat? with
+    | some c => doAct s (.routerOk (.sock c))
+    | none => (s, "bad-op")
   | ["stopreq", c] =>
     match c.toNat? with
     | some c => doAct s (.stopReq c)
